@@ -189,6 +189,37 @@ func runCodecRoundTrip(s LogSpec) (res common.Result) {
 	return
 }
 
+type failAfterWriter struct{ n int }
+
+func (w *failAfterWriter) Write(p []byte) (int, error) {
+	if len(p) <= w.n {
+		w.n -= len(p)
+		return len(p), nil
+	}
+	k := w.n
+	w.n = 0
+	return k, fmt.Errorf("injected writer failure")
+}
+
+// failingEncode issues an Encode that cannot succeed and requires an error.
+func failingEncode(kind string, n int) *common.Failure {
+	c := &wal.BinaryCodec{}
+	l := &raft.Log{Index: 7, Term: 3, Type: raft.LogCommand, Data: bytes.Repeat([]byte{0xab}, 64), AppendedAt: time.Unix(1700000000, 1).UTC()}
+	switch kind {
+	case "badtime":
+		l.AppendedAt = time.Unix(1700000000, 1).In(time.FixedZone("minus-one-minute", -60))
+		var buf bytes.Buffer
+		if err := c.Encode(l, &buf); err == nil {
+			return common.Failf("encode-accepted-unencodable", "Encode of a log whose AppendedAt the standard library cannot marshal (zone offset -1 minute) returned nil")
+		}
+	case "badwriter":
+		if err := c.Encode(l, &failAfterWriter{n: n}); err == nil {
+			return common.Failf("encode-swallowed-write-error", "Encode into a writer that fails after %d bytes returned nil", n)
+		}
+	}
+	return nil
+}
+
 func head(b []byte) []byte {
 	if len(b) > 24 {
 		return b[:24]
@@ -200,12 +231,29 @@ func TestC12Codec(t *testing.T) {
 	type C struct {
 		L    LogSpec `json:"log"`
 		Edge bool    `json:"edge"`
+		// Pre: a failing Encode issued just before (an unencodable time, or a writer that
+		// fails after PreN bytes); it must report an error and must not affect the next call.
+		Pre  string `json:"pre,omitempty"`
+		PreN int    `json:"pren,omitempty"`
 	}
 	common.Run(t, "C12", "C12Codec", func(t *rapid.T) C {
 		l, e := genLogSpec(t, true)
-		return C{l, e}
+		c := C{L: l, Edge: e}
+		if rapid.IntRange(0, 3).Draw(t, "pre") == 0 {
+			c.Pre = rapid.SampledFrom([]string{"badtime", "badwriter"}).Draw(t, "prekind")
+			c.PreN = rapid.IntRange(0, 40).Draw(t, "pren")
+		}
+		return c
 	}, func(c C) common.Result {
+		if c.Pre != "" {
+			if f := failingEncode(c.Pre, c.PreN); f != nil {
+				return common.Result{Fail: f}
+			}
+		}
 		r := runCodecRoundTrip(c.L)
+		if c.Pre != "" {
+			r.Classes = append(r.Classes, "encode-after-failed-encode")
+		}
 		r.NonTrivial = c.Edge
 		if c.Edge {
 			r.Classes = append(r.Classes, "codec-boundary-value")
